@@ -349,6 +349,10 @@ def r2_adaptive(repo: Repo, rep):
             st = stores[0]
             tgt, val = st.target, st.value
             ok_shape = isinstance(tgt, ast.Subscript) and isinstance(val, ast.Subscript)
+            if isinstance(tgt, ast.Subscript) and dump(tgt.value) in ("self.last_points._t", "self.last_points.as_tensor") and not isinstance(val, ast.Subscript):
+                # masked rows receive a WHOLE tensor: the candidates then are not the n rows drawn for the same positions (the wrapped sampler was asked for another count)
+                rep.violation(R, sp.site(st.node), sp.fq, "the same mask selects rows on both sides: row k is replaced by candidate row k", f"{dump(tgt)[:60]} = {dump(val)[:60]} (no selection on the right)", "unmasked candidates")
+                continue
             if not ok_shape:
                 rep.undecided(R, sp.site(st.node), sp.fq, "replacement of the form last[mask] = new[mask]", dump(st.node))
                 continue
